@@ -785,3 +785,136 @@ def r_ordefault(E):
                     f"built with another value than the one requested", rel, b.lineno, fn.name))
     res.floor = 0
     return res
+
+
+# ---------------------------------------------------------------------------------------------- R-SWAP
+_SW_POSITIVE = '''
+from typing import NamedTuple
+class Params(NamedTuple):
+    active: float
+    total: float
+def read(model):
+    return Params(estimate(model.total), estimate(model.active))
+def area(width, height):
+    return width * height
+def f(height, width):
+    return area(height, width)
+'''
+_SW_NEGATIVE = '''
+from typing import NamedTuple
+class Params(NamedTuple):
+    active: float
+    total: float
+def read(model):
+    return Params(estimate(model.active), estimate(model.total))
+def mirrored(model):
+    return Params(total=model.total, active=model.active)
+def area(width, height):
+    return width * height
+def f(height, width):
+    return area(width, height) + area(height=height, width=width) + area(height, height)
+'''
+
+
+def _arg_word(e):
+    """the word an argument is named by: `x`, `….x`, `….["x"]`, or that of the single argument of a call around it"""
+    while isinstance(e, ast.Call) and len(e.args) == 1 and not e.keywords and not isinstance(e.args[0], ast.Starred):
+        e = e.args[0]
+    if isinstance(e, ast.Name):
+        return e.id
+    if isinstance(e, ast.Attribute):
+        return e.attr
+    if isinstance(e, ast.Subscript) and isinstance(e.slice, ast.Constant) and isinstance(e.slice.value, str):
+        return e.slice.value
+    return None
+
+
+def positional_signatures(trees):
+    """{callable name: positional parameter names} for the functions, classes (constructor, NamedTuple / dataclass
+    fields) and methods defined in `trees`; a name defined twice with different parameters is left out"""
+    sigs, clash = {}, set()
+
+    def put(name, ps):
+        if name in sigs and sigs[name] != ps:
+            clash.add(name)
+        sigs[name] = ps
+    for tree in trees:
+        for n in ast.walk(tree):
+            if isinstance(n, ast.FunctionDef):
+                ps = [a.arg for a in n.args.posonlyargs + n.args.args]
+                is_method = isinstance(getattr(n, "_parent", None), ast.ClassDef)
+                static = any(isinstance(d, ast.Name) and d.id == "staticmethod" for d in n.decorator_list)
+                if is_method and not static:
+                    ps = ps[1:]
+                if n.name != "__init__":
+                    put(("m:" if is_method else "f:") + n.name, ps)
+            elif isinstance(n, ast.ClassDef):
+                init = next((b for b in n.body if isinstance(b, ast.FunctionDef) and b.name == "__init__"), None)
+                record = any(norm(b).split(".")[-1] == "NamedTuple" for b in n.bases) or any(
+                    "dataclass" in norm(d) for d in n.decorator_list)
+                if init is not None:
+                    put("f:" + n.name, [a.arg for a in init.args.posonlyargs + init.args.args][1:])
+                elif record:
+                    put("f:" + n.name, [b.target.id for b in n.body if isinstance(b, ast.AnnAssign) and isinstance(b.target, ast.Name)])
+            elif isinstance(n, ast.Assign) and len(n.targets) == 1 and isinstance(n.targets[0], ast.Name) \
+                    and isinstance(n.value, ast.Call) and norm(n.value.func).split(".")[-1] == "namedtuple" and len(n.value.args) >= 2:
+                spec = n.value.args[1]
+                names = [x.value for x in spec.elts if isinstance(x, ast.Constant)] if isinstance(spec, (ast.List, ast.Tuple)) \
+                    else str(getattr(spec, "value", "")).replace(",", " ").split()
+                put("f:" + n.targets[0].id, names)
+    return {k: v for k, v in sigs.items() if k not in clash}
+
+
+def swapped_arguments(tree, sigs):
+    """[(call, i, j)]: two positional arguments each named by the *other's* parameter"""
+    out = []
+    for c in ast.walk(tree):
+        if not isinstance(c, ast.Call) or len(c.args) < 2 or any(isinstance(a, ast.Starred) for a in c.args):
+            continue
+        if isinstance(c.func, ast.Name):
+            ps = sigs.get("f:" + c.func.id)
+        elif isinstance(c.func, ast.Attribute):
+            ps = sigs.get("m:" + c.func.attr)
+        else:
+            ps = None
+        if not ps:
+            continue
+        words = [_arg_word(a) for a in c.args]
+        n = min(len(words), len(ps))
+        for i in range(n):
+            for j in range(i + 1, n):
+                if words[i] and words[j] and words[i] != words[j] and words[i] == ps[j] and words[j] == ps[i]:
+                    out.append((c, i, j, ps))
+    return out
+
+
+@rule("R-SWAP")
+def r_swap(E):
+    pm = E.pm
+    res = RuleResult("R-SWAP", "no call of a function / constructor / record of the package passes, positionally, two "
+                               "arguments that are each named by the other's parameter (f(total, active) for f(active, "
+                               "total)): the two values silently change places")
+    trees = [t for _, (r_, t, _s) in sorted(pm.modules.items())]
+    sigs = positional_signatures(trees)
+    for mod, (rel, tree, src) in sorted(pm.modules.items()):
+        res.instances += len([c for c in ast.walk(tree) if isinstance(c, ast.Call) and len(c.args) >= 2])
+        for c, i, j, ps in swapped_arguments(tree, sigs):
+            fn = c
+            while fn is not None and not isinstance(fn, ast.FunctionDef):
+                fn = getattr(fn, "_parent", None)
+            q = fn.name if fn is not None else "<module>"
+            res.findings.append(Finding(
+                "R-SWAP", f"{rel}:{q} :: {norm(c.func)}",
+                f"{q} calls `{norm(c)[:90]}`: argument {i + 1} is named `{_arg_word(c.args[i])}` and argument {j + 1} "
+                f"`{_arg_word(c.args[j])}`, but the parameters at those positions are `{ps[i]}` and `{ps[j]}` — the two "
+                f"values change places", rel, c.lineno, q, {"clauses": _area(rel)}))
+    ptree, ntree = set_parents(ast.parse(_SW_POSITIVE)), set_parents(ast.parse(_SW_NEGATIVE))
+    pos = swapped_arguments(ptree, positional_signatures([ptree]))
+    neg = swapped_arguments(ntree, positional_signatures([ntree]))
+    if len(pos) != 2 or neg:
+        raise AnalysisError(f"R-SWAP: embedded examples: {len(pos)} of 2 positive recognised, {len(neg)} false reports")
+    res.instances += 2
+    res.samples = [{"embedded_positive_examples_recognised": 2, "embedded_twins_silent": True,
+                    "signatures_indexed": len(sigs)}]
+    res.floor = 200
+    return res
